@@ -28,7 +28,7 @@ class C15(Prop):
     model_targets = ["theories/TcpBridge/BridgeCheck.vo"]
     technique = "Coq proofs of the hex round trip (all byte values, any length) and of stream reassembly for every write segmentation and read-buffer sequence + differential run of WebsocketNetConn against a raw websocket peer and full-duplex hash comparison through the two real bridge binaries"
     level_text = ("C15_hex_roundtrip and C15_reassembly prove for every sequence of writes (empty ones, all 256 byte values, any sizes), every interleaving with non-text messages and every sequence of read-buffer sizes >= 1 that the reads return exactly the written bytes in order, "
-                  "nothing lost, duplicated or reordered; C15_passthrough characterises the routing decision (path regenerated from the source). The real Read/Write are run on scripted frame lists (upper/lower-case hex, empty, binary and malformed messages) with scripted buffer sizes and "
+                  "nothing lost, duplicated or reordered; C15_streams_independent proves the same for any number of streams (connections x directions) whose writes and reads interleave arbitrarily: each stream's reads are a prefix of that stream's writes and of nothing else; C15_passthrough characterises the routing decision (path regenerated from the source). The real Read/Write are run on scripted frame lists (upper/lower-case hex, empty, binary and malformed messages) with scripted buffer sizes and "
                   "must equal the model result by result; the two bridge binaries carry concurrent full-duplex streams with random write sizes and read buffers between a TCP client and an echoing TCP server, compared by hash.")
     level_note = ("Trusted: Coq kernel, srcfacts (StreamingPath), harness. Modelled, not verified: gorilla/websocket (messages arrive whole and in order), encoding/hex (modelled exactly, round trip proved for the model), TCP. "
                   "The two directions are independent instances of the model because the code shares no state between them (bufferedMsg is per connection and only touched by Read).")
